@@ -276,6 +276,7 @@ func (e *End) Close() error {
 	w := e.w
 	w.mu.Lock()
 	e.CloseN++
+	again := e.closed
 	if !e.closed {
 		e.closed = true
 		e.peer.rclosed = true
@@ -284,6 +285,9 @@ func (e *End) Close() error {
 	e.peer.unwaitLocked()
 	w.cond.Broadcast()
 	w.mu.Unlock()
+	if again {
+		return ErrClosed // like a real socket: closing twice is an error
+	}
 	return nil
 }
 
